@@ -367,7 +367,7 @@ pub struct Witness {
 }
 
 fn pspec(mode: Mode, fin: Fin) -> PuppetSpec {
-    PuppetSpec { mode, late: false, fin, burst: 0, eager_end: false, per_pull: 1 }
+    PuppetSpec { mode, late: false, fin, burst: 0, eager_end: false, per_pull: 1, on_stop: None }
 }
 
 fn base_spec(topo: Topo, pspecs: Vec<PuppetSpec>, lens: Vec<usize>, probe_specs: Vec<ProbeSpec>) -> CaseSpec {
@@ -428,7 +428,32 @@ pub fn witnesses() -> Vec<Witness> {
             ),
             acts: vec![Act::Subscribe(1), Act::ProbeAct(1, React::Pull)],
         },
+        Witness {
+            name: "K3a flatten: the stop of the inner makes the outer emit; the new inner is subscribed, pulled and relayed after the sink disposed",
+            prop: "C03",
+            spec: k3_spec(),
+            acts: vec![Act::PuppetStep(0, 0)],
+        },
+        Witness {
+            name: "K3b flatten: the stop of the inner makes the outer emit; the old inner is stopped twice and a new one subscribed after the output is over",
+            prop: "C04",
+            spec: k3_spec(),
+            acts: vec![Act::PuppetStep(0, 0)],
+        },
     ]
+}
+
+/// flatten(outer: listenable, 2 inners; inner 1 answers Pulls synchronously and, when it is told
+/// to stop, makes the outer emit its next inner); the sink disposes inside its first datum
+fn k3_spec() -> CaseSpec {
+    let mut inner1 = pspec(Mode::PullSync, Fin::End);
+    inner1.on_stop = Some((1, 0));
+    base_spec(
+        Topo::Flatten(2),
+        vec![pspec(Mode::Listen, Fin::End), inner1, pspec(Mode::PullSync, Fin::End)],
+        vec![2, 2, 2],
+        vec![ProbeSpec { policy: vec![React::Nothing, React::Terminate], rest: React::Nothing, pull_cap: 1000, attach: None, late_pulls: false, drop_talkback: false }],
+    )
 }
 
 /// Run the directed witnesses that belong to `prop`; record which ones still reproduce.
